@@ -1,21 +1,38 @@
-from lib.core import Verus
+import os
+from lib.core import Verus, VERUS_DIR
+from lib import vx
 from props.C13 import build as build_lp
+from verus import c12_fact_index_chain as fc
+
+
+def build_fc():
+    text, located, dropped, raws = fc.build()
+    d = os.path.join(VERUS_DIR, 'c12_fact_index_chain')
+    os.makedirs(d, exist_ok=True)
+    vx.write_diff(raws, os.path.join(d, 'repo_vs_verified.diff'))
+    return text, located, dropped
 
 PROPERTY = 'C12'
 LEVEL = 'proof'
-HARNESS_FILES = ['verus/c13_linear_perspective.py']
+HARNESS_FILES = ['verus/c13_linear_perspective.py', 'verus/c12_fact_index_chain.py']
 UNITS = [
     Verus('c13_linear_perspective', build_lp, min_verified=17,
           contract='in-flight perspective (LinearFactPerspective overlay over any prior): insert => the key reads the value; delete => the key reads None whatever the prior holds '
                    '(tombstone with a prior, removal without); every other key unchanged; query = overlay entry if present else the prior\'s fact; apply_updates = the same flat-map steps in order'),
+    Verus('c12_fact_index_chain', build_fc, min_verified=8,
+          contract='committed fact indexes (LinearFactIndex::{query, query_prefix_inner}, chains of any length): query returns the entry of the NEWEST index in the chain that mentions the key '
+                   '(a tombstone reads as absent); query_prefix_inner returns exactly the keys with the prefix that some index in the chain mentions, each with its newest entry '
+                   '(newer values and tombstones shadow older ones; no key of an older index is dropped); both walks terminate'),
 ]
-TRUSTED = ['vstd BTreeMap model', 'R6 type shims', 'the prior (committed fact index chain / outer perspective) is an arbitrary fixed function']
-ASSUMPTIONS = ['ONLY exact queries on in-flight perspectives are decided. NOT covered: committed fact indexes across segment boundaries, chained on-disk indexes, depth-limited compaction, '
-               'prefix queries (find_prefixes / query_prefix_inner: range + take_while iterator adapters, outside Verus\' subset; nested BTreeMaps are beyond CBMC\'s practical reach — measured)']
-EXPLANATION = 'Flat-map semantics of the in-memory fact overlay (exact queries) proved unbounded; the on-disk index chain and prefix scans are outside reach.'
+TRUSTED = ['vstd BTreeMap model', 'R6 type shims', 'for the in-flight unit the prior (committed fact index chain / outer perspective) is an arbitrary fixed function',
+           'index chain unit: Read::fetch returns the index stored at the offset; prior links lead to strictly smaller depth (FactIndexRepr.depth = prior.depth + 1, established by the writer, not checked); '
+           'find_prefixes yields exactly the entries whose key starts with the prefix (BTreeMap::range + take_while; external contract)']
+ASSUMPTIONS = ['NOT covered: depth-limited compaction (LinearStorage::compact), how write_facts builds the chain, mid-segment state rebuilt from per-command updates (get_fact_perspective), '
+               'prefix queries on in-flight perspectives (LinearFactPerspective::query_prefix_inner), ascending order / tombstone filtering of QueryIterator (std BTreeMap::into_iter order is assumed)']
+EXPLANATION = 'Flat-map semantics proved unbounded for the in-memory overlay (exact queries) and for the committed index chain (exact and prefix queries, newest-first shadowing).'
 MANIFEST = {
     'text': 'Partial proof: exact-query flat-map semantics of the in-flight fact perspective (inserts, deletes, tombstones shadowing any prior) for any number of operations. '
-            'Committed index chains, compaction and prefix queries are not decided.',
-    'note': 'Covers LinearFactPerspective::{insert, delete, query, apply_updates, clear} only.',
-    'technique': 'Verus on extracted LinearFactPerspective methods over vstd BTreeMap specs',
+            'Exact and prefix queries on committed index chains of any length return the newest entry per key (tombstones shadow older values, nothing is dropped). Compaction and chain construction are not decided.',
+    'note': 'Covers LinearFactPerspective::{insert, delete, query, apply_updates, clear} and LinearFactIndex::{query, query_prefix_inner}.',
+    'technique': 'Verus on extracted LinearFactPerspective / LinearFactIndex methods over vstd BTreeMap specs',
 }
